@@ -122,6 +122,10 @@ func spell(r *Rng, ps []Pair, quoteNames bool) []byte {
 			sb.WriteString(strconv.Quote(string(p.V)))
 		case x < 9 || bytes.IndexByte(p.V, '`') >= 0:
 			sb.Write(p.V)
+			if r.Chance(1, 5) {
+				sb.WriteByte('\\') // an unquoted value ending in a backslash: before the next separator or at the end of the text
+				continue
+			}
 		default:
 			sb.WriteByte('`')
 			sb.Write(p.V)
@@ -168,6 +172,65 @@ func mutate(r *Rng, s []byte) []byte {
 		}
 	}
 	return s
+}
+
+// ---------- calls into /repo: a panic becomes an observation ----------
+
+// callPanic is what a wrapped call into the implementation re-panics with; mkCase turns it into a case
+type callPanic struct {
+	fn, in, val string
+}
+
+func guard(fn, in string) {
+	if r := recover(); r != nil {
+		if cp, ok := r.(callPanic); ok {
+			panic(cp)
+		}
+		panic(callPanic{fn: fn, in: in, val: fmt.Sprint(r)})
+	}
+}
+
+func rParse(s string) (set tag.Set, err error) {
+	defer guard("tag.Parse", s)
+	return tag.Parse(s)
+}
+func rToMap(s string) (m map[string]string, err error) {
+	defer guard("kvstring.ToMap", s)
+	return kvstring.ToMap(s)
+}
+func rCurly(s string) (r string, err error) {
+	defer guard("kvstring.RemoveCurlyBraces", s)
+	return kvstring.RemoveCurlyBraces(s)
+}
+func rSplit(s string) (r []string, err error) {
+	defer guard("kvstring.SplitString", s)
+	return kvstring.SplitString(s, '=', ',', nil)
+}
+func rTrim(s string) string {
+	defer guard("kvstring.TrimSpaces", s)
+	return kvstring.TrimSpaces(s)
+}
+func rNewFields(s string) (f field.Fields, err error) {
+	defer guard("field.NewFieldsFromKVString", s)
+	return field.NewFieldsFromKVString(s)
+}
+func rFieldParse(s string) field.Fields {
+	defer guard("field.Parse", s)
+	return field.Parse(s)
+}
+func rCheck(s string) (f field.Fields, err error) {
+	defer guard("field.Check", s)
+	return field.Check(s)
+}
+func rMapToSet(m map[string]string) tag.Set {
+	defer guard("tag.MapToSet", fmt.Sprint(m))
+	return tag.MapToSet(m)
+}
+
+// quiet runs f and swallows a panic (generator-side uses only: the case that follows reports it)
+func quiet(f func()) {
+	defer func() { recover() }()
+	f()
 }
 
 // ---------- oracle helpers (independent of the Coq model) ----------
@@ -342,12 +405,12 @@ func gMap(m map[string]string) string { return gPairs(sortedPairs(m)) }
 func unquoteTable(s string) string {
 	var it []string
 	seen := map[string]bool{}
-	fine, err := kvstring.RemoveCurlyBraces(s)
+	fine, err := rCurly(s)
 	if err == nil && len(fine) > 0 {
-		res, err := kvstring.SplitString(fine, '=', ',', nil)
+		res, err := rSplit(fine)
 		if err == nil {
 			for _, p := range res {
-				v := kvstring.TrimSpaces(p)
+				v := rTrim(p)
 				if len(v) > 0 && (v[0] == '"' || v[0] == '`') && !seen[v] {
 					seen[v] = true
 					u, e := strconv.Unquote(v)
@@ -388,11 +451,29 @@ func showPairs(ps []Pair) string {
 
 // ---------- the cases ----------
 
-func mkCase(rp Replay) (*Case, error) {
+// mkCase runs one case; a panic of a call into the implementation becomes a case of its own (KPanicked, which the
+// model never agrees with) with an oracle class naming the call, so that the replay holds the concrete input
+func mkCase(rp Replay) (cs *Case, err error) {
+	defer func() {
+		if r := recover(); r != nil {
+			cp, ok := r.(callPanic)
+			if !ok {
+				cp = callPanic{fn: "harness/" + rp.Kind, in: string(rp.S), val: fmt.Sprint(r)}
+			}
+			cs = &Case{Stream: rp.Kind, Replay: rp, NonTrivial: true,
+				Coq:    GApp("KPanicked", GStr(cp.fn), GStr(cp.in)),
+				Oracle: &Violation{Class: "panicked:" + cp.fn, Detail: fmt.Sprintf("%s(%s) panicked: %s", cp.fn, show([]byte(cp.in)), cp.val)}}
+			err = nil
+		}
+	}()
+	return mkCase1(rp)
+}
+
+func mkCase1(rp Replay) (*Case, error) {
 	cs := &Case{Stream: rp.Kind}
 	switch rp.Kind {
 	case "split":
-		res, err := kvstring.SplitString(string(rp.S), '=', ',', nil)
+		res, err := rSplit(string(rp.S))
 		obs := GNone
 		if err == nil {
 			obs = GSome(GListStr(res))
@@ -400,11 +481,11 @@ func mkCase(rp Replay) (*Case, error) {
 		cs.Coq = GApp("KSplit", GBytes(rp.S), obs)
 		cs.NonTrivial = len(rp.S) > 0
 	case "curly":
-		res, err := kvstring.RemoveCurlyBraces(string(rp.S))
+		res, err := rCurly(string(rp.S))
 		cs.Coq = GApp("KCurly", GBytes(rp.S), gOptBytes(err == nil, []byte(res)))
 		cs.NonTrivial = len(rp.S) > 0
 	case "trim":
-		cs.Coq = GApp("KTrim", GBytes(rp.S), GStr(kvstring.TrimSpaces(string(rp.S))))
+		cs.Coq = GApp("KTrim", GBytes(rp.S), GStr(rTrim(string(rp.S))))
 		cs.NonTrivial = len(rp.S) > 0
 	case "quote":
 		q := strconv.Quote(string(rp.S))
@@ -419,7 +500,7 @@ func mkCase(rp Replay) (*Case, error) {
 		cs.Coq = GApp("KUnquote", GBytes(rp.S), gOptBytes(e == nil, []byte(u)))
 		cs.NonTrivial = e == nil
 	case "parse":
-		set, err := tag.Parse(string(rp.S))
+		set, err := rParse(string(rp.S))
 		obs := GNone
 		var vals [][]byte
 		if err == nil {
@@ -431,7 +512,7 @@ func mkCase(rp Replay) (*Case, error) {
 			cs.NonTrivial = len(m) > 0 && isSpecial(rp.S)
 			cs.Tags = append(cs.Tags, "parse:ok")
 			// the map kvstring.ToMap gives for the same text is the one tag.Parse keeps
-			m2, err2 := kvstring.ToMap(string(rp.S))
+			m2, err2 := rToMap(string(rp.S))
 			if len(rp.S) > 0 && (err2 != nil || !mapEq(m, m2)) {
 				cs.Oracle = &Violation{Class: "tagparse-differs-from-tomap", Detail: show(rp.S)}
 			}
@@ -449,9 +530,9 @@ func mkCase(rp Replay) (*Case, error) {
 			m[string(p.K)] = string(p.V)
 			vals = append(vals, p.V)
 		}
-		set := tag.MapToSet(m)
+		set := rMapToSet(m)
 		ln := string(set.Line())
-		back, err := tag.Parse(ln)
+		back, err := rParse(ln)
 		obs := GNone
 		var bm map[string]string
 		if err == nil {
@@ -470,7 +551,7 @@ func mkCase(rp Replay) (*Case, error) {
 		} else {
 			cs.Tags = append(cs.Tags, "class:safe")
 		}
-		set2 := tag.MapToSet(m)
+		set2 := rMapToSet(m)
 		switch {
 		case string(set2.Line()) != ln:
 			cs.Oracle = &Violation{Class: "tagline-nondeterministic", Detail: showPairs(rp.Pairs)}
@@ -493,13 +574,13 @@ func mkCase(rp Replay) (*Case, error) {
 			m[string(p.K)] = string(p.V)
 			vals = append(vals, p.V)
 		}
-		set := tag.MapToSet(m)
+		set := rMapToSet(m)
 		ln := string(set.Line())
-		f, err := field.NewFieldsFromKVString(ln)
+		f, err := rNewFields(ln)
 		cs.Coq = GApp("KProv", gPairs(rp.Pairs), unquoteTable(ln), quoteTable(vals), gOptBytes(err == nil, []byte(f)))
 		cs.NonTrivial = len(m) > 0
 		// oracle (only where the line itself denotes the tag set): the provenance fields are exactly the tags
-		back, e2 := tag.Parse(ln)
+		back, e2 := rParse(ln)
 		if e2 != nil || !mapEq(tag.VC08TagMap(back), m) {
 			cs.Tags = append(cs.Tags, "prov:line-unsafe")
 			break
@@ -524,21 +605,21 @@ func mkCase(rp Replay) (*Case, error) {
 			if cls == "" {
 				cls = "provenance-unclassified"
 			}
-			cs.Oracle = &Violation{Class: cls, Detail: fmt.Sprintf("source tags %s: field.Parse(%s) gives %s (error: %v)", showPairs(sortedPairs(m)), show([]byte(ln)), show([]byte(f)), err)}
+			cs.Oracle = &Violation{Class: cls, Detail: fmt.Sprintf("source tags %s: rFieldParse(%s) gives %s (error: %v)", showPairs(sortedPairs(m)), show([]byte(ln)), show([]byte(f)), err)}
 		}
 	case "fparse":
-		f, err := field.NewFieldsFromKVString(string(rp.S))
+		f, err := rNewFields(string(rp.S))
 		cs.Coq = GApp("KFParse", GBytes(rp.S), unquoteTable(string(rp.S)), gOptBytes(err == nil, []byte(f)))
 		if err == nil {
 			cs.Tags = append(cs.Tags, "fparse:ok")
 			cs.NonTrivial = len(f) > 0 && isSpecial(rp.S)
-			if _, e := field.Check(string(f)); e != nil {
+			if _, e := rCheck(string(f)); e != nil {
 				// accepted, but the binary list is not well-formed: a length byte wrapped
 				cls := "fields-parse-result-malformed"
-				if fine, e1 := kvstring.RemoveCurlyBraces(string(rp.S)); e1 == nil {
-					if res, e2 := kvstring.SplitString(fine, '=', ',', nil); e2 == nil {
+				if fine, e1 := rCurly(string(rp.S)); e1 == nil {
+					if res, e2 := rSplit(fine); e2 == nil {
 						for _, p := range res {
-							v := kvstring.TrimSpaces(p)
+							v := rTrim(p)
 							if len(v) > 0 && (v[0] == '"' || v[0] == '`') {
 								if u, e3 := strconv.Unquote(v); e3 == nil && len(u) > 255 {
 									cls = "fieldkv-unquoted-item-over-255"
@@ -573,7 +654,7 @@ func mkCase(rp Replay) (*Case, error) {
 			}
 			break
 		}
-		back, err := field.NewFieldsFromKVString(txt)
+		back, err := rNewFields(txt)
 		cs.Coq = GApp("KFPrint", GBytes(rp.S), unquoteTable(txt), quoteTable(items), GSome(GStr(txt)), gOptBytes(err == nil, []byte(back)))
 		cs.NonTrivial = len(items) >= 2 && isSpecial(rp.S)
 		if !wf || len(items)%2 == 1 {
@@ -609,7 +690,19 @@ func mkCase(rp Replay) (*Case, error) {
 // mkE2E writes every event through the RPC client of an in-process server and reads everything back: the Tags and
 // Fields texts of the results are what C08 is about. One case per event. Texts are kept free of the inputs that make
 // the server store a malformed field list (that would panic the query goroutine, see fieldkv-unquoted-item-over-255).
-func mkE2E(rp Replay) ([]*Case, error) {
+func mkE2E(rp Replay) (out []*Case, err error) {
+	defer func() {
+		if r := recover(); r != nil {
+			cp, ok := r.(callPanic)
+			if !ok {
+				cp = callPanic{fn: "harness/e2e", in: "", val: fmt.Sprint(r)}
+			}
+			out = []*Case{{Stream: "e2e", Replay: rp, NonTrivial: true,
+				Coq:    GApp("KPanicked", GStr(cp.fn), GStr(cp.in)),
+				Oracle: &Violation{Class: "panicked:" + cp.fn, Detail: fmt.Sprintf("%s(%s) panicked: %s", cp.fn, show([]byte(cp.in)), cp.val)}}}
+			err = nil
+		}
+	}()
 	srv, err := StartServer(ServerOpts{})
 	if err != nil {
 		return nil, err
@@ -640,18 +733,17 @@ func mkE2E(rp Replay) ([]*Case, error) {
 		}
 		return len(got) >= n
 	})
-	var out []*Case
 	for i, e := range rp.Evs {
 		cs := &Case{Stream: "e2e", Replay: Replay{Kind: "e2e", Evs: []E2EEvent{e}}, NonTrivial: acked[i]}
 		obs := GNone
 		var vals [][]byte
-		if m, err := kvstring.ToMap(string(e.Tags)); err == nil {
+		if m, err := rToMap(string(e.Tags)); err == nil {
 			for _, p := range sortedPairs(m) {
 				vals = append(vals, p.V)
 			}
 		}
 		for _, ft := range [][]byte{e.WF, e.EF} {
-			if f, err := field.NewFieldsFromKVString(string(ft)); err == nil {
+			if f, err := rNewFields(string(ft)); err == nil {
 				items, _ := decodeFields([]byte(f))
 				vals = append(vals, items...)
 			}
@@ -663,11 +755,11 @@ func mkE2E(rp Replay) ([]*Case, error) {
 			if !acked[i] {
 				cs.Oracle = &Violation{Class: "e2e-refused-write-readable", Detail: show(e.Tags)}
 			} else {
-				mi, _ := kvstring.ToMap(string(e.Tags))
-				mo, err := kvstring.ToMap(ev.Tags)
-				f1, _ := field.NewFieldsFromKVString(string(e.WF))
-				f2 := field.Parse(string(e.EF))
-				fo, ferr := field.NewFieldsFromKVString(ev.Fields)
+				mi, _ := rToMap(string(e.Tags))
+				mo, err := rToMap(ev.Tags)
+				f1, _ := rNewFields(string(e.WF))
+				f2 := rFieldParse(string(e.EF))
+				fo, ferr := rNewFields(ev.Fields)
 				switch {
 				case err != nil || !mapEq(mi, mo):
 					cs.Oracle = &Violation{Class: "e2e-tags-text", Detail: fmt.Sprintf("written %s, returned Tags %s", show(e.Tags), show([]byte(ev.Tags)))}
@@ -688,16 +780,16 @@ func unquoteTableMany(texts ...string) string {
 	var it []string
 	seen := map[string]bool{}
 	for _, s := range texts {
-		fine, err := kvstring.RemoveCurlyBraces(s)
+		fine, err := rCurly(s)
 		if err != nil || len(fine) == 0 {
 			continue
 		}
-		res, err := kvstring.SplitString(fine, '=', ',', nil)
+		res, err := rSplit(fine)
 		if err != nil {
 			continue
 		}
 		for _, p := range res {
-			v := kvstring.TrimSpaces(p)
+			v := rTrim(p)
 			if len(v) > 0 && (v[0] == '"' || v[0] == '`') && !seen[v] {
 				seen[v] = true
 				u, e := strconv.Unquote(v)
@@ -875,6 +967,15 @@ func corpus() []Replay {
 		{Kind: "parse", S: str("{ name=\"a\\\"pp\" }")},
 		{Kind: "parse", S: str("a=`x,y`")},
 		{Kind: "parse", S: str("a=1,a=2")},
+		{Kind: "parse", S: str("dir=C:\\logs\\,name=app")}, // unquoted value ending in a backslash before a separator
+		{Kind: "parse", S: str("a=b\\")},                     // ... and at the end of the text
+		{Kind: "parse", S: str("a\\=b\\ ,c\\=\\")},
+		{Kind: "split", S: str("a=b\\")},
+		{Kind: "split", S: str("a\\=\\,b=\"\\\\\"")},
+		{Kind: "line", Pairs: P("dir", "C:\\logs\\", "name", "app")},
+		{Kind: "fparse", S: str("dir=C:\\logs\\,name=app")},
+		{Kind: "fparse", S: str("a=b\\")},
+		{Kind: "fprint", S: F("a\\", "b\\", "c", "\\")},
 		{Kind: "fprint", S: F("a=b", "1")},
 		{Kind: "fprint", S: F("a", " x")},
 		{Kind: "fprint", S: F("a", "\"x")},
@@ -948,7 +1049,10 @@ func main() {
 				s = mutate(r, s)
 			}
 			jobs = append(jobs, Replay{Kind: "parse", S: s})
-			if set, err := tag.Parse(string(s)); err == nil {
+			var set tag.Set
+			err := fmt.Errorf("not parsed")
+			quiet(func() { set, err = rParse(string(s)) })
+			if err == nil {
 				ps := pairsOf(tag.VC08TagMap(set), r)
 				jobs = append(jobs, Replay{Kind: "line", Pairs: ps})
 				if r.Chance(1, 2) {
@@ -975,7 +1079,10 @@ func main() {
 				s = append(append(append(s, []byte("w=\"")...), bytes.Repeat([]byte{0xff}, r.Range(80, 100))...), '"')
 			}
 			jobs = append(jobs, Replay{Kind: "fparse", S: s})
-			if f, err := field.NewFieldsFromKVString(string(s)); err == nil {
+			var f field.Fields
+			err := fmt.Errorf("not parsed")
+			quiet(func() { f, err = rNewFields(string(s)) })
+			if err == nil {
 				jobs = append(jobs, Replay{Kind: "fprint", S: []byte(f)})
 			}
 		}
